@@ -566,7 +566,7 @@ func (l *Logger) rotateFileLocked() {
 	// until the name is free.
 	stamp := time.Now().Format("20060102-150405")
 	rotatedPath := fmt.Sprintf("%s.%s", l.filePath, stamp)
-	for i := 1; rotatedExists(rotatedPath); i++ {
+	for i := 1; i < maxRotationsPerSecond && rotatedExists(rotatedPath); i++ {
 		rotatedPath = fmt.Sprintf("%s.%s.%d", l.filePath, stamp, i)
 	}
 	os.Rename(l.filePath, rotatedPath)
@@ -587,6 +587,9 @@ func (l *Logger) rotateFileLocked() {
 	l.writer = f
 	l.currentSize = 0
 }
+
+// maxRotationsPerSecond bounds the search for a free rotated file name
+const maxRotationsPerSecond = 10000
 
 // rotatedExists reports whether a rotated file of that name exists, plain or compressed
 func rotatedExists(path string) bool {
